@@ -152,6 +152,8 @@ def run_property(pid, spec, tier, seed, scratch, logdir, a, t0):
     known_hits = []
     inconclusive = []
     hmeta = {h["name"]: h for h in spec["harnesses"]}
+    import re as _re
+
     for r in results + extra_results:
         h = hmeta.get(r["harness"], {})
         r["full"] = h.get("full")
@@ -162,9 +164,23 @@ def run_property(pid, spec, tier, seed, scratch, logdir, a, t0):
         bad_cov = [c for c in r.get("covers", []) if c["status"] != "SATISFIED" and c["desc"] not in h.get("covers_may_be_unsat", ())]
         if bad_cov:
             inconclusive.append((r["harness"], "vacuity witness not satisfied: " + ", ".join(c["desc"] for c in bad_cov)))
+        r["own_failed"] = []
         if r["outcome"] == "fail":
             unlisted = []
             for f in r["failed"]:
+                m = _re.match(r'"?(C\d{2,3}):', f["desc"])
+                if m:
+                    owner = m.group(1)
+                elif "unwinding assertion" in f["desc"]:
+                    owner = pid  # a too-small bound breaks every claim of this harness
+                else:
+                    owner = h.get("panic_prop", pid)
+                if owner != pid:
+                    continue  # reported by the check of the property that owns the assertion
+                r["own_failed"].append(f)
+                if "unwinding assertion" in f["desc"]:
+                    inconclusive.append((r["harness"], "unwinding assertion failed (bound too small): " + f.get("fn", "")[:120]))
+                    continue
                 k = match_known(known, pid, r["harness"], f)
                 if k:
                     known_hits.append((k, r["harness"], f))
@@ -292,12 +308,15 @@ def write_evidence(pid, spec, tier, seed, results, known_hits, viol_lines, incon
     solver_s = 0.0
     for r in results:
         n = r.get("checks", 0)
-        nf = len(r.get("failed", []))
+        nf = len(r.get("own_failed", r.get("failed", [])))
         obligations += n
         if r["outcome"] in ("pass", "fail"):
             discharged += n - nf
         cov_ok = [c["desc"] for c in r.get("covers", []) if c["status"] == "SATISFIED"]
-        if r["outcome"] == "pass" and (cov_ok or r.get("nonvacuous")):
+        own_failed = r.get("own_failed", r.get("failed", []))
+        known_ids = {id(f) for _, _, f in known_hits}
+        only_known = r["outcome"] == "fail" and all(id(f) in known_ids for f in own_failed)
+        if (r["outcome"] == "pass" or only_known) and (cov_ok or r.get("nonvacuous")):
             nontrivial += 1
         solver_s += r.get("verif_time_s") or 0.0
         meta = next((h for h in spec["harnesses"] if h["name"] == r["harness"]), {})
@@ -310,7 +329,8 @@ def write_evidence(pid, spec, tier, seed, results, known_hits, viol_lines, incon
                 "functions": meta.get("functions", r.get("functions", [])),
                 "outcome": r["outcome"],
                 "cbmc_checks": n,
-                "failed_checks": [f["desc"] for f in r.get("failed", [])][:10],
+                "failed_checks_of_this_property": [f["desc"] + " @ " + f.get("fn", "")[:80] for f in r.get("own_failed", [])][:10],
+                "failed_checks_owned_by_other_properties": sorted({f["desc"] for f in r.get("failed", []) if f not in r.get("own_failed", [])})[:10],
                 "vacuity_witnesses_satisfied": cov_ok,
                 "solver_time_s": r.get("verif_time_s"),
                 "wall_s": r.get("wall_s"),
